@@ -242,12 +242,13 @@ class Verifier:
         """Vacuity guard: the hypotheses have a model.  Quantified hypotheses can make the solver
         slow to *build* a model; a model of the hypotheses plus "every length / integer input is
         tiny" is a model of the hypotheses, so that easier query is tried first."""
-        small = [z3.And(t >= 0, t <= 1) for path, t in inputs
-                 if is_z3(t) and z3.is_int(t)]
-        if small:
-            r, _, _ = solve.check(list(hyps) + small, timeout_s=min(5, self.timeout_s))
-            if r == 'sat':
-                return 'sat'
+        for hi in (1, 3):
+            small = [z3.And(t >= 0, t <= hi) for path, t in inputs
+                     if is_z3(t) and z3.is_int(t)]
+            if small:
+                r, _, _ = solve.check(list(hyps) + small, timeout_s=min(5, self.timeout_s))
+                if r == 'sat':
+                    return 'sat'
         r, _, _ = solve.check(list(hyps), timeout_s=self.timeout_s)
         return r
 
